@@ -672,7 +672,7 @@ class AbstractExcelInPython(ABC):
             find_text = find_text.replace('~?', '?') \
                 .replace('~*', '*')
 
-            result = within_text.find(find_text, start_num - 1) + 1
+            result = within_text.lower().find(find_text.lower(), start_num - 1) + 1
             return result if result else '#VALUE!'
 
         find_text = find_text \
